@@ -134,6 +134,12 @@ func (c *Ctx) kindFact(cond ssa.Value, pos bool) (subject string, kinds []int64,
 				return "", nil, false
 			}
 		}
+		// a helper that is looked through renders its parameters as this call's arguments: evaluate in this call's frame
+		through := c.isNew(cal)
+		if through {
+			c.frames = append(c.frames, x)
+			defer func() { c.frames = c.frames[:len(c.frames)-1] }()
+		}
 		// every way the predicate can answer true carries a kind test of one and the same subject
 		origins, okO := c.verdictOrigins(cal, true)
 		if !okO || len(origins) == 0 || len(origins) > 8 {
@@ -156,6 +162,9 @@ func (c *Ctx) kindFact(cond ssa.Value, pos bool) (subject string, kinds []int64,
 			if !found {
 				return "", nil, false
 			}
+		}
+		if through {
+			return s, ks, true
 		}
 		// substitute the callee's parameters by the call's arguments
 		for i := range cal.Params {
